@@ -60,6 +60,8 @@ func (k *K8s) travel(ctx context.Context) error {
 // callerGaveUp journals a request that never reached the server because the caller's own
 // context ended (not a failure of the API).
 func (k *K8s) callerGaveUp(kind, node string, err error) {
+	k.J.Big.Lock()
+	defer k.J.Big.Unlock()
 	k.J.Add(Entry{Kind: kind, Node: node, Err: CallerPrefix + err.Error()})
 }
 
@@ -131,6 +133,8 @@ func (c *nodeClient) Get(ctx context.Context, name string, _ metav1.GetOptions) 
 		c.k.callerGaveUp(KGet, name, err)
 		return nil, err
 	}
+	c.k.J.Big.Lock()
+	defer c.k.J.Big.Unlock()
 	cur := c.k.Nodes[name]
 	e := Entry{Kind: KGet, Node: name}
 	if cur != nil {
@@ -159,6 +163,8 @@ func (c *nodeClient) update(ctx context.Context, kind string, node *v1.Node) (*v
 		c.k.callerGaveUp(kind, node.Name, err)
 		return nil, err
 	}
+	c.k.J.Big.Lock()
+	defer c.k.J.Big.Unlock()
 	cur := c.k.Nodes[node.Name]
 	e := Entry{Kind: kind, Node: node.Name, Sent: node.DeepCopy(), SentBrief: brief(node)}
 	if cur != nil {
@@ -200,6 +206,8 @@ func (c *nodeClient) Delete(ctx context.Context, name string, _ metav1.DeleteOpt
 		c.k.callerGaveUp(KDelete, name, err)
 		return err
 	}
+	c.k.J.Big.Lock()
+	defer c.k.J.Big.Unlock()
 	cur := c.k.Nodes[name]
 	e := Entry{Kind: KDelete, Node: name}
 	if cur != nil {
@@ -338,6 +346,8 @@ func (v *View) PodLister() v1lister.PodLister { return &podLister{v: v} }
 type nodeLister struct{ v *View }
 
 func (l *nodeLister) List(sel labels.Selector) ([]*v1.Node, error) {
+	l.v.J.Big.Lock()
+	defer l.v.J.Big.Unlock()
 	if l.v.J.ShouldFail(KListNodes, "") {
 		l.v.J.Add(Entry{Kind: KListNodes, Err: "injected", Injected: true})
 		return nil, &InjectedErr{"list nodes"}
@@ -362,6 +372,8 @@ func (l *nodeLister) Get(name string) (*v1.Node, error) {
 type podLister struct{ v *View }
 
 func (l *podLister) List(sel labels.Selector) ([]*v1.Pod, error) {
+	l.v.J.Big.Lock()
+	defer l.v.J.Big.Unlock()
 	if l.v.J.ShouldFail(KListPods, "") {
 		l.v.J.Add(Entry{Kind: KListPods, Err: "injected", Injected: true})
 		return nil, &InjectedErr{"list pods"}
